@@ -538,7 +538,24 @@ def check_ints(ctx, F, A):
                 vals[tfn.index("len")] = cint(ln, 32, False)
                 root = ip.new_oid("tlf")
                 st.mem[root] = VAgg("struct", c03.TLF, vals)
-                outs = ip.run_root(b, {}, [inp, VRef(root, (), False)], st)
+                # signed types are analysed once per sign of the encoded number (first byte below / from 0x80): code that derives
+                # the extension arithmetically from the sign bit is then exact on either side.  An input shorter than len (no
+                # first byte to speak of) is covered by both runs.
+                starts = [st]
+                if signed:
+                    first = slice_elem(ip, st, inp, Lin.const(0))
+                    starts = []
+                    if isinstance(first, VInt):
+                        for cond in (Lin.const(0x7f) - first.lin, first.lin - 0x80):
+                            sx = st.copy()
+                            try:
+                                sx.assume_ge0(cond)
+                                starts.append(sx)
+                            except Infeasible:
+                                pass
+                    if not starts:
+                        starts = [st]
+                outs = [o for sx in starts for o in ip.run_root(b, {}, [inp, VRef(root, (), False)], sx)]
                 n_ok = 0
                 fills = set()
                 for (s2, rv) in outs:
